@@ -149,17 +149,25 @@ class C15(Prop):
             "suffixes; malformed stream: labels missing from a dictionary and ket/bra identifier collisions (both sides "
             "must raise the same exception). non-trivial = at least one term generated; distinct by case content")
     clauses = [
-        ("F", "gksl_form: for the model with bug_sign=false, all Hamiltonians, any number of jump operators on any sites with "
-              "distinct identifiers, any sound classifier flags and any valuation consistent with the generated dictionaries, the "
-              "generated terms denote H rho - rho H + i sum_k f_k gamma_k (L rho L^+ - 1/2 L^+L rho - 1/2 rho L^+L) "
-              "(C15_gksl_form_fixed); for bug_sign=true the same with +1/2 on the last term (C15_form_current)"),
-        ("F", "the GKSL right-hand side has trace zero under trace linearity/cyclicity (C15_gksl_trace_zero)"),
-        ("F", "label closure: every operator label of a generated term is a key of the generated conversion dictionary; jump "
-              "coefficients are keys of the coefficient mapping when the rate names are (C15_label_closure, C15_coeff_closure)"),
+        ("F", "GKSL form: for the model with bug_sign=false, all Hamiltonians, any number of jump operators on any sites "
+              "(distinct identifiers per tensor product), any sound classifier flags, rational prefactors, symbolic rates: the "
+              "generated terms, read through the generated dictionaries, denote H rho - rho H + i sum_k f_k gamma_k "
+              "(L rho L^+ - 1/2 L^+L rho - 1/2 rho L^+L) in every algebra satisfying alg_laws (C15_gksl_form_fixed, "
+              "C15_rhs_is_gksl); for either sign and any valuation agreeing with the dictionary assignments: "
+              "C15_lindblad_form_any_sign (bug_sign=true: +1/2 on the last term)"),
+        ("F", "trace: the GKSL right-hand side and the generated superoperator with the GKSL sign annihilate the trace "
+              "(C15_gksl_trace_zero, C15_generated_trace_zero_fixed)"),
+        ("F", "closure: every operator label / coefficient name of a generated term is a key of the generated conversion "
+              "dictionary / coefficient mapping (C15_label_closure, C15_coeff_closure); the dictionaries do not depend on the "
+              "sign variant (C15_dictionaries_sign_independent)"),
         ("F", "symbolic and dense constructions agree under rate = coefficient^2 for equal bug_sign (C15_symbolic_eq_dense)"),
-        ("F", "refutation of the current code: d=1, H=0, L=1, gamma=1 over Q(i): generator applied to 1 is i, trace i <> 0 "
-              "(C15_gksl_refuted_current); with the GKSL sign the same input gives 0"),
-        ("O", "Hermiticity and trace preservation of expm(-i t L): validated numerically with scipy expm on random density matrices"),
+        ("F", "refutation of the current code (known finding C15-anticommutator-sign): d=1, H=0, L=1, gamma=1 over Q(i) satisfies "
+              "every hypothesis and the generated superoperator applied to 1 has trace i <> 0; with the GKSL sign it is 0 "
+              "(C15_gksl_refuted_current, C15_witness_values); the laws are satisfiable (C15_laws_satisfiable)"),
+        ("I", "label freshness hypothesis (functional_tables) holds for every generated case: tables_check evaluated by "
+              "vm_compute per case, sufficient by C15_tables_check_sound"),
+        ("O", "Hermiticity and trace preservation of expm(-i t L): validated numerically with scipy expm on random density "
+              "matrices (proved part: trace annihilation by the generator)"),
         ("V", "the dense matrix of the generated terms (ket sites then bra sites, Kronecker order) equals the GKSL matrix of the "
               "property text; exact_lindbladian equals it too (both: differential oracle, numpy)"),
     ]
@@ -183,8 +191,6 @@ class C15(Prop):
         rng = ctx.rng(stream)
         n = ctx.scale(70, 500) * budget_scale
         cases = []
-        if stream == "main":
-            cases.append(self._witness())
         for k in range(n):
             cases.append(self._gen_case(rng, malformed=False))
         for k in range(max(6, n // 10)):
@@ -457,7 +463,8 @@ class C15(Prop):
             # the dictionaries do not depend on bug_sign: only the term list of the second variant is printed
             # (coq_eval reads coqc's output through a pipe: a shard has to stay below the pipe buffer)
             exprs.append(f"(let i := {inp} in (generate true i, "
-                         "match generate false i with Ok r => Some (fst (fst r)) | _ => None end))")
+                         "match generate false i with Ok r => Some (fst (fst r)) | _ => None end, "
+                         "tables_check true i && tables_check false i))")
             idx.append(i)
         vals = coq_eval(ctx, IMPORTS, exprs, shard=5)
         out = [None] * len(cases)
@@ -513,6 +520,15 @@ class C15(Prop):
                 return f"coefficient entry {k!r} = {ob['coeffs'][k]} is not {e}"
         return None
 
+    def _shared_labels_agree(self, case):
+        hconv, hco, jdict, jco = self._inputs(case)
+        for k in hconv:
+            if k in jdict and not (hconv[k].shape == jdict[k].shape and np.array_equal(hconv[k], jdict[k])):
+                return f"generator: label {k} denotes different matrices in the two dictionaries"
+        if "1" in hco and hco["1"] != 1:
+            return "generator: the Hamiltonian maps the coefficient name '1' to a value other than 1"
+        return None
+
     def _flag_soundness(self, case, ob):
         hconv, hco, jdict, jco = self._inputs(case)
         tol = 1e-4
@@ -531,6 +547,9 @@ class C15(Prop):
             v = eval_mexp(e, {}, jdict)
             if b and not np.allclose(v, v.T, rtol=tol, atol=1e-8):
                 return f"symmetric flag of {e} is unsound"
+        for k, re_, he, idf in ob["j_flags"]:
+            if idf and not he:
+                return f"{k} is flagged as identity but not as Hermitian (hypothesis of sound_flags)"
         # completeness on the exactly representable test matrices: a shortcut that is available is taken
         for k, b in ob["h_sym"]:
             if not b and np.array_equal(hconv[k], hconv[k].T):
@@ -554,6 +573,13 @@ class C15(Prop):
             if alt is None:
                 return "model: generate false fails where generate true returns"
             m_false = ("Ok", [[Fraction(t[0]), t[1], [[k, v] for k, v in t[2]]] for t in alt], m_true[2], m_true[3])
+        if m_true[0] == "Ok" and not case["malformed"]:
+            # hypotheses of the semantic theorem that the generator promises (label freshness: C15_tables_check_sound)
+            if mo[2] is not True:
+                return "model: tables_check is false (a label is assigned two different symbolic values): outside the theorem's hypotheses"
+            h = self._shared_labels_agree(case)
+            if h:
+                return h
         d_true = self._cmp_one(case, ob, m_true)
         if d_true is None:
             return None          # the code as recorded (known finding if any product term exists)
